@@ -2603,11 +2603,14 @@ class HTTPChannel(basic.LineReceiver, policies.TimeoutMixin):
             must be closed in order to indicate the completion of the response
             to C{request}.
         """
-        connection = request.requestHeaders.getRawHeaders(b"Connection")
-        if connection:
-            tokens = [t.lower() for t in connection[0].split(b" ")]
-        else:
-            tokens = []
+        # Connection is a comma-separated list of connection options
+        # (RFC 9110 section 7.6.1) which may be spread over several field lines.
+        connection = request.requestHeaders.getRawHeaders(b"Connection", [])
+        tokens = [
+            token.strip(b" \t").lower()
+            for value in connection
+            for token in value.split(b",")
+        ]
 
         # Once any HTTP 0.9 or HTTP 1.0 request is received, the connection is
         # no longer allowed to be persistent.  At this point in processing the
